@@ -1059,7 +1059,7 @@ pub fn run(oracle: &'static str, replay: Option<&str>) -> Report {
         rep.violations_from(vs);
         return rep;
     }
-    let depth = if rep.thorough() { 30 } else { 6 };
+    let depth = if rep.thorough() { 30 } else { 8 };
     rep.rule = format!(
         "explicit-state BFS over real Table mutators; state = history, canonical fingerprint of RIB+stats+counters+fold views; {} packs, depth {}; non-trivial = distinct canonical state other than the initial one",
         models.len(),
